@@ -3,6 +3,9 @@ CONSTANTS NB = 2
  MaxCrash = 2
  RepairTornTail = TRUE
  RepairAtomicContext = TRUE
+ MaxEdge = 0
+ ScanStride = "align"
+ CaskAdvance = "align"
  RepairScanPromotes = TRUE
-INVARIANTS TypeOK Opens StableNotOlder StableClosed DurablyClosed AccountsExact ContextFresh
+INVARIANTS TypeOK Opens StableNotOlder StableClosed WalClauses AccountsExact ContextFresh
 CHECK_DEADLOCK FALSE
